@@ -16,8 +16,10 @@ import (
 	"net/http/httptest"
 	"net/url"
 	"strings"
+	"sync"
 	"sync/atomic"
 	"testing"
+	"time"
 
 	jsonrpc "github.com/filecoin-project/go-jsonrpc"
 	"github.com/filecoin-project/go-jsonrpc/auth"
@@ -236,15 +238,18 @@ func runC19HTTP(c c19HTTPCase) *Violation {
 		malformed bool
 		token     string
 	}
-	var cands []cand // acceptable interpretations where the statement is silent (both given)
+	var cands []cand // acceptable interpretations where the statement is silent (well-formed header AND query token given)
+	malformedHeader := false
 	if hdr != "" {
 		if strings.HasPrefix(hdr, "Bearer ") {
 			cands = append(cands, cand{false, strings.TrimPrefix(hdr, "Bearer ")})
 		} else {
+			// a malformed token is answered with 401, whatever else the request carries
 			cands = append(cands, cand{true, ""})
+			malformedHeader = true
 		}
 	}
-	if q != "" {
+	if q != "" && !malformedHeader {
 		// a query token is always well-formed (the prefix is implied)
 		cands = append(cands, cand{false, q})
 	}
@@ -442,10 +447,77 @@ func genTokenString(t *rapid.T, label string) string {
 	).Draw(t, label)
 }
 
+// runC19Concurrent: overlapping requests with different tokens through ONE auth.Handler; every request must see
+// exactly the permissions verified for its own token for as long as it is being served.
+type c19Concurrent struct {
+	Sets   [][]string `json:"sets"`
+	Rounds int        `json:"rounds"`
+}
+
+func runC19Concurrent(c c19Concurrent) *Violation {
+	var mu sync.Mutex
+	var bad string
+	sentinel := auth.Permission("__default_sentinel__")
+	read := func(ctx context.Context) string {
+		out := []string{}
+		for _, p := range c19Universe {
+			if auth.HasPerm(ctx, []auth.Permission{sentinel}, p) {
+				out = append(out, string(p))
+			}
+		}
+		return strings.Join(out, ",")
+	}
+	gate := make(chan struct{})
+	h := &auth.Handler{
+		Verify: func(ctx context.Context, token string) ([]auth.Permission, error) {
+			var set []string
+			_ = json.Unmarshal([]byte(token), &set)
+			return toPerms(set), nil
+		},
+		Next: func(w http.ResponseWriter, r *http.Request) {
+			want := r.URL.Query().Get("want")
+			first := read(r.Context())
+			<-gate // stay inside Next while the other requests pass through the handler
+			second := read(r.Context())
+			if first != want || second != want {
+				mu.Lock()
+				bad = fmt.Sprintf("request verified as [%s] saw [%s] on entry and [%s] after other requests had been served", want, first, second)
+				mu.Unlock()
+			}
+		},
+	}
+	for round := 0; round < c.Rounds; round++ {
+		gate = make(chan struct{})
+		var wg sync.WaitGroup
+		for _, set := range c.Sets {
+			want := []string{}
+			for _, p := range c19Universe {
+				if containsStr(set, string(p)) {
+					want = append(want, string(p))
+				}
+			}
+			req := httptest.NewRequest("POST", "http://example.invalid/rpc?want="+url.QueryEscape(strings.Join(want, ",")), strings.NewReader("{}"))
+			req.Header.Set("Authorization", "Bearer "+string(mustJSON(set)))
+			wg.Add(1)
+			go func() {
+				defer wg.Done()
+				h.ServeHTTP(httptest.NewRecorder(), req)
+			}()
+			time.Sleep(200 * time.Microsecond) // requests enter one after the other and overlap inside Next
+		}
+		close(gate)
+		wg.Wait()
+		if bad != "" {
+			return violf("permissions-changed-under-request", "%s", bad)
+		}
+	}
+	return nil
+}
+
 func TestC19(t *testing.T) {
 	rec := NewRec("C19", "proxy cases: exhaustive (caller set x default set x attached x required x shape) over a 3-permission universe plus generated lists with duplicates/foreign/empty permissions; HTTP cases: header form x query form x verifier outcome. Non-trivial = the effective set is non-empty and differs from the set that was NOT chosen (attached vs defaults disagree on the verdict), or an HTTP case carrying a token; distinct by descriptor hash")
 	defer rec.Finish(t)
-	rec.RequireClass("proxy_denied", "proxy_allowed", "attached_empty", "http_malformed", "http_rejected", "http_query_token", "http_both")
+	rec.RequireClass("concurrent_requests", "proxy_denied", "proxy_allowed", "attached_empty", "http_malformed", "http_rejected", "http_query_token", "http_both")
 
 	proxyClasses := func(c c19Case) (bool, []string) {
 		req := string(c19Universe[c.Required])
@@ -515,6 +587,17 @@ func TestC19(t *testing.T) {
 					}
 				}
 			}
+		}
+	})
+
+	t.Run("concurrent", func(t *testing.T) {
+		for _, sets := range [][][]string{
+			{{"read", "write", "admin"}, {"read"}, {"admin"}, {}},
+			{{"read"}, {"admin", "write"}, {"read", "write", "admin"}, {"write"}},
+			{{}, {"admin"}, {"read"}},
+		} {
+			c := c19Concurrent{Sets: sets, Rounds: 3}
+			rec.Run(t, c, true, []string{"http", "concurrent_requests"}, func() *Violation { return runC19Concurrent(c) })
 		}
 	})
 
@@ -594,6 +677,11 @@ func TestC19Replay(t *testing.T) {
 	Replay(t, "C19", 1, func(raw json.RawMessage) *Violation {
 		var probe map[string]json.RawMessage
 		_ = json.Unmarshal(raw, &probe)
+		if _, ok := probe["rounds"]; ok {
+			var c c19Concurrent
+			_ = json.Unmarshal(raw, &c)
+			return runC19Concurrent(c)
+		}
 		if _, ok := probe["verify_err"]; ok {
 			var c c19HTTPCase
 			_ = json.Unmarshal(raw, &c)
